@@ -6,7 +6,8 @@ export GOFLAGS=-mod=mod GOPROXY=off GOSUMDB=off GOTOOLCHAIN=local; unset GOWORK
 VERIF=$(cd "$(dirname "$0")/.." && pwd)
 prop=$1; name=$2; file=$3; expr=$4
 WT=/tmp/verif-mkmut
-if [ ! -d $WT/.git ]; then rm -rf $WT; mkdir -p $WT; (cd /repo && git ls-files -z | xargs -0 tar -cf - 2>/dev/null) | tar -xf - -C $WT; (cd $WT && git init -q . && git add -A >/dev/null 2>&1 && git -c user.email=v@v -c user.name=v commit -qm base >/dev/null); fi
+HEADNOW=$(git -C /repo rev-parse HEAD)
+if [ ! -d $WT/.git ] || [ "$(cat $WT/.base 2>/dev/null)" != "$HEADNOW" ]; then rm -rf $WT; mkdir -p $WT; (cd /repo && git ls-files -z | xargs -0 tar -cf - 2>/dev/null) | tar -xf - -C $WT; (cd $WT && git init -q . && git add -A >/dev/null 2>&1 && git -c user.email=v@v -c user.name=v commit -qm base >/dev/null); echo $HEADNOW > $WT/.base; fi
 cd $WT; git checkout -q -- .
 python3 - "$file" "$expr" <<'PY'
 import sys,re
